@@ -22,6 +22,20 @@ def lastDrained (h : List Cycle) : Bool :=
   | some cy => decide (cy.pushes.length < cy.pulls) && !cy.clear
   | none => false
 
+/-- a call returned an error (anything but nil / io.EOF) -/
+def reported (outs : List Out) : Bool := (outs.find? (fun o => o.res != .ok && o.res != .eof)).isSome
+
+/-- The executable statement "an I/O failure is never hidden" on the outputs of a program that is
+    the well-formed history `h`: the first call that did not succeed returned an error (it did not
+    panic or hang), or no call failed and the outputs satisfy the statement of C11.  `none` = the
+    statement holds.  Proved sound in `Properties/C13_history.lean` (`surfaceStatement_sound`). -/
+def surfaceStatement (ac : Bool) (h : List Cycle) (ops : List Op) (outs : List Out) : Option String :=
+  let firstBad := outs.find? (fun o => o.res != .ok && o.res != .eof)
+  if firstBad.any (fun o => o.res == .panic || o.res == .hang) then
+    some "a-call-panicked-before-any-error-was-returned"
+  else if firstBad.isSome then none
+  else (Biogo.Drive.C11.historyStatement ac h ops outs).map (fun why => s!"success-reported-throughout-but:{why}")
+
 def handleTokens (inp : List String) (obs : String) : Verdict :=
   match inp with
   | "x" :: rest =>
@@ -65,16 +79,9 @@ def handleTokens (inp : List String) (obs : String) : Verdict :=
             match outToks.mapM parseOutE with
             | none => fail "unparsable-observation" tags
             | some outs =>
-              let firstBad := outs.find? (fun o => o.res != .ok && o.res != .eof)
-              if firstBad.any (fun o => o.res == .panic || o.res == .hang) then
-                fail "a-call-panicked-before-any-error-was-returned" tags else
-              let reported := firstBad.isSome
-              let hidden : Option String :=
-                if reported then none
-                else if outs.length ≠ w.ops.length then some "history-did-not-complete"
-                else Biogo.Drive.C11.checkHistory w.ac h 1 outs
-              match hidden with
-              | some why => fail s!"success-reported-throughout-but:{why}" tags
+              let reported := reported outs
+              match surfaceStatement w.ac h w.ops outs with
+              | some why => fail why tags
               | none =>
                 if w.flt.isNone && !reported && lastDrained h && w.aclean && dir ≠ "0" then
                   fail "autoclean-drain-leaves-the-directory" tags
